@@ -42,6 +42,24 @@ type LockAn struct {
 	// per instruction state *before* the instruction
 	before map[ssa.Instruction]LockSet
 	nLockOps int
+	pkg      string
+	unlocks  map[*ssa.Function]bool // the function (or a package-local callee, transitively) releases the mutex
+	touches  map[*ssa.Function]bool // ... performs any operation on the mutex
+}
+
+// mayUnlock: in is an unlock of the mutex, or a call of a package-local function that may release it
+// (del waits for the hasher with the lock dropped; a helper extracted from it does the same).
+func (la *LockAn) mayUnlock(in ssa.Instruction) bool {
+	if op, ok := la.lockOp(in); ok {
+		return op == LU
+	}
+	if _, isDefer := in.(*ssa.Defer); isDefer {
+		return false
+	}
+	if c := calleeOf(in); c != nil && la.unlocks[c] {
+		return true
+	}
+	return false
 }
 
 // lockOp classifies a call as an operation on the analysed mutex.
@@ -69,11 +87,71 @@ func (la *LockAn) lockOp(in ssa.Instruction) (LockSet, bool) {
 	return 0, false
 }
 
+func (la *LockAn) lockOpCommon(cc *ssa.CallCommon) (LockSet, bool) {
+	f := cc.StaticCallee()
+	if f == nil || f.Pkg == nil || f.Pkg.Pkg.Path() != "sync" || len(cc.Args) == 0 {
+		return 0, false
+	}
+	fa, ok := cc.Args[0].(*ssa.FieldAddr)
+	if !ok || fieldVar(fa) != la.mu {
+		return 0, false
+	}
+	switch f.Name() {
+	case "Lock":
+		return LW, true
+	case "RLock":
+		return LR, true
+	case "Unlock", "RUnlock":
+		return LU, true
+	}
+	return 0, false
+}
+
 func newLockAn(p *Prog, mu *types.Var, pkg string) *LockAn {
-	la := &LockAn{mu: mu, entry: map[*ssa.Function]LockSet{}, in: map[*ssa.BasicBlock]LockSet{}, before: map[ssa.Instruction]LockSet{}}
+	la := &LockAn{mu: mu, entry: map[*ssa.Function]LockSet{}, in: map[*ssa.BasicBlock]LockSet{}, before: map[ssa.Instruction]LockSet{}, pkg: pkg,
+		unlocks: map[*ssa.Function]bool{}, touches: map[*ssa.Function]bool{}}
 	for _, f := range p.SrcFuncs() {
 		if relPkg(f) == pkg {
 			la.funcs = append(la.funcs, f)
+		}
+	}
+	// which functions operate on the mutex, directly or through package-local callees
+	for _, f := range la.funcs {
+		allInstrs(f, func(in ssa.Instruction) {
+			if _, isDefer := in.(*ssa.Defer); isDefer {
+				// a deferred unlock pairs with the function's own lock: the function is lock-neutral for its callers
+				if op, ok := la.lockOpCommon(in.(*ssa.Defer).Common()); ok {
+					_ = op
+					la.touches[f] = true
+				}
+				return
+			}
+			if op, ok := la.lockOp(in); ok {
+				la.touches[f] = true
+				if op == LU {
+					la.unlocks[f] = true
+				}
+			}
+		})
+	}
+	for changed := true; changed; {
+		changed = false
+		for _, f := range la.funcs {
+			allInstrs(f, func(in ssa.Instruction) {
+				if _, isGo := in.(*ssa.Go); isGo {
+					return
+				}
+				c := calleeOf(in)
+				if c == nil || relPkg(c) != pkg {
+					return
+				}
+				if la.unlocks[c] && !la.unlocks[f] {
+					la.unlocks[f], changed = true, true
+				}
+				if la.touches[c] && !la.touches[f] {
+					la.touches[f], changed = true, true
+				}
+			})
 		}
 	}
 	// initial entry states: exported functions/methods and functions never called inside the package start unlocked
@@ -159,8 +237,16 @@ func (la *LockAn) flow(f *ssa.Function, onCall func(*ssa.Function, LockSet)) boo
 				}
 				if c := ci.Common().StaticCallee(); c != nil {
 					onCall(c, st)
-					// callee summary: a package-local callee may change the state (del unlocks and relocks:
-					// it returns in the state it was entered in — verified by exitStates below)
+					// callee summary: a package-local callee that operates on the mutex leaves it in one of its
+					// exit states (computed by the same analysis from its call-site derived entry states); until
+					// that is known, and for callees that never touch the mutex, the state is unchanged.
+					// A callee that locks and unlocks by defer exits (before its defers) locked but returns
+					// in its entry state: deferred unlocks are applied to the exit states.
+					if relPkg(c) == la.pkg && c.Blocks != nil && la.touches[c] {
+						if ex := la.exitAfterDefers(c); ex != 0 {
+							st = ex
+						}
+					}
 				}
 			}
 			if mc, ok := in.(*ssa.MakeClosure); ok {
@@ -196,6 +282,29 @@ func (la *LockAn) exitStates(f *ssa.Function) LockSet {
 	var s LockSet
 	for _, r := range returnsOf(f) {
 		s |= la.before[r]
+	}
+	return s
+}
+
+// exitAfterDefers: the states in which f hands control back to its caller: the states at its returns, with
+// the effect of deferred lock operations that dominate the return applied.
+func (la *LockAn) exitAfterDefers(f *ssa.Function) LockSet {
+	var s LockSet
+	for _, r := range returnsOf(f) {
+		st := la.before[r]
+		if st == 0 {
+			continue
+		}
+		allInstrs(f, func(in ssa.Instruction) {
+			d, ok := in.(*ssa.Defer)
+			if !ok || !instrDominates(d, r) {
+				return
+			}
+			if op, ok := la.lockOpCommon(d.Common()); ok {
+				st = op
+			}
+		})
+		s |= st
 	}
 	return s
 }
